@@ -129,6 +129,8 @@ pub fn run(seed: u64) -> std::process::ExitCode {
                 Err(SoapError::Http(_)) => ("http", false),
                 Err(SoapError::YaserdeError(_)) => ("yaserde", false),
                 Err(SoapError::Restriction(_)) => ("restriction", false),
+                #[allow(unreachable_patterns)]
+                Err(_) => ("other-error", false),
             };
             let (method, path, auth, body_matches) = match rec.requests.first() {
                 Some((m, p, h, b)) => {
@@ -157,7 +159,7 @@ pub fn run(seed: u64) -> std::process::ExitCode {
         };
         let client = reqwest::Client::builder().timeout(Duration::from_secs(5)).build().unwrap();
         let result: SoapResult<AnswerEnvelope> = rt.block_on(hc::send_using_client(&client, &format!("http://127.0.0.1:{port}/x"), creds.clone(), good.clone()));
-        let rclass = match &result { Ok(_) => "value", Err(SoapError::Http(_)) => "http", Err(SoapError::YaserdeError(_)) => "yaserde", Err(SoapError::Restriction(_)) => "restriction" };
+        let rclass = match &result { Ok(_) => "value", Err(SoapError::Http(_)) => "http", Err(SoapError::YaserdeError(_)) => "yaserde", Err(SoapError::Restriction(_)) => "restriction", #[allow(unreachable_patterns)] Err(_) => "other-error" };
         println!("SCN refused creds={} status=- body=- close=Refused | connections=0 requests=0 method=- path=- auth=none body_matches=0 result={rclass} de_ok=0 value_matches=0", u8::from(creds.is_some()));
         // a request that violates a facet: nothing may reach the listener
         let listener = TcpListener::bind("127.0.0.1:0").unwrap();
@@ -172,7 +174,7 @@ pub fn run(seed: u64) -> std::process::ExitCode {
         *stop.lock().unwrap() = true;
         let _ = th.join();
         let rec = rec.lock().unwrap().clone();
-        let rclass = match &result { Ok(_) => "value", Err(SoapError::Http(_)) => "http", Err(SoapError::YaserdeError(_)) => "yaserde", Err(SoapError::Restriction(_)) => "restriction" };
+        let rclass = match &result { Ok(_) => "value", Err(SoapError::Http(_)) => "http", Err(SoapError::YaserdeError(_)) => "yaserde", Err(SoapError::Restriction(_)) => "restriction", #[allow(unreachable_patterns)] Err(_) => "other-error" };
         println!("SCN violating-request creds={} status=200 body=exact close=Normal | connections={} requests={} method=- path=- auth=none body_matches=0 result={rclass} de_ok=1 value_matches=0", u8::from(creds.is_some()), rec.connections, rec.requests.len());
     }
     std::process::ExitCode::SUCCESS
